@@ -124,10 +124,12 @@ def motion_failures(spec, plan):
     for i in range(1, len(res["calls"])):
         c = res["calls"][i]
         Q, t = motions[i]
-        bad += _pair_failures(spec, nb, per, c0["pos"], c0["out"], c["pos"], c["out"], Q, t,
+        # both sides are the molecules RETURNED by the map, held by the caller and read at the end of the sequence
+        bad += _pair_failures(spec, nb, per, c0["pos"], c0["out_end"], c["pos"], c["out_end"], Q, t,
                               "call %d of the sequence (%s) vs call 0" % (i, c["how"]))
     if not np.array_equal(res["tgt_after"], np.array(spec["tgt"], dtype=float)):
         bad.append("the target molecule passed to the constructor was modified by the calls")
+    bad = res["held_problems"][:2] + bad
     return bad[:4]
 
 
@@ -221,9 +223,27 @@ def _witness_c02_4():
     return out
 
 
+def _witness_c02_6():
+    """seeded change C02-6 (the mapped molecule is written into a buffer reused by every call): the shipped curcumin
+    CG -> AA pair; mapped = emap(ref), mapped_moved = emap(R ref + t) three times, and only THEN the held results are
+    compared (the driver keeps every returned Molecule alive and judges the positions read at the end)"""
+    rng = np.random.RandomState(7)
+    out = []
+    for spec in E.shipped_specs(40):
+        if spec["geom"] != "shipped_CUR":
+            continue
+        plan = []
+        for _ in range(3):
+            plan.append(dict(IDENT, how="copy"))
+            plan.append({"how": "copy", "Q": E.rot(rng.normal(size=3), rng.uniform(0, 2 * np.pi)).tolist(),
+                         "t": rng.uniform(-10, 10, 3).tolist()})
+        out.append((spec, plan))
+    return out
+
+
 def _corpus_items(ctx):
     items = [(spec, single_plan(Q, t)) for spec in CORPUS for Q in _ROTS for t in ([0.0, 0.0, 0.0], [12.5, -40.0, 3.25])]
-    items += _witness_c02_4()
+    items += _witness_c02_4() + _witness_c02_6()
     items += [(spec, sequence_plan(_ROTS[0], [12.5, -40.0, 3.25])) for spec in CORPUS]
     items += [(spec, single_plan(_ROTS[0], [12.5, -40.0, 3.25])) for spec in E.shipped_specs(ctx.n(40, 10 ** 6))]
     return items
